@@ -12,6 +12,7 @@ import (
 	"io"
 	"runtime"
 	"sync"
+	"sync/atomic"
 	"testing"
 	"time"
 
@@ -525,6 +526,9 @@ type c06ConnCase struct {
 	Glued bool `json:"glued,omitempty"`
 	// NoHandler: the application never registered a handler (malformed packets must end the link all the same)
 	NoHandler bool `json:"noHandler,omitempty"`
+	// BlockedWrite: when the malformed packet arrives an application Publish is parked inside Transport.Write (the peer has
+	// stopped reading): the link must end all the same, and the parked call must come back
+	BlockedWrite bool `json:"blockedWrite,omitempty"`
 }
 
 func c06GenBad(rt *rapid.T) c06Bad {
@@ -655,6 +659,16 @@ func c06ConnRun(tb rapid.TB, c c06ConnCase) {
 		vFailf(tb, r.log.strings(60), "Done() closed although only well-formed packets were sent so far")
 	default:
 	}
+	parked := make(chan error, 1)
+	if c.BlockedWrite {
+		atomic.StoreInt32(&r.conn.blockWrites, 1)
+		go func() {
+			pctx, pc := context.WithTimeout(context.Background(), 60*time.Second)
+			defer pc()
+			parked <- r.cli.Publish(pctx, &Message{Topic: "parked", Payload: []byte("x")})
+		}()
+		vWaitUntil(5*time.Second, func() bool { return vGoroutinesWith("(*memConn).Write(", "sync.(*Cond).Wait") >= 1 })
+	}
 	seqBad := r.peer.sendRaw(c.Bad.Bytes, "malformed:"+c.Bad.Class)
 	if c.Bad.Close {
 		r.conn.peerClose(false)
@@ -687,6 +701,13 @@ func c06ConnRun(tb rapid.TB, c c06ConnCase) {
 	if !closed {
 		vFailf(tb, map[string]interface{}{"log": r.log.strings(60), "goroutines": vGoroutineDump()},
 			"a malformed packet (%s: % x) did not end the connection: Done() still open, Err()=%v", c.Bad.Class, c.Bad.Bytes, r.cli.Err())
+	}
+	if c.BlockedWrite {
+		select {
+		case <-parked:
+		case <-time.After(20 * time.Second):
+			vFailf(tb, map[string]interface{}{"log": r.log.strings(60), "goroutines": vGoroutineDump()}, "the connection ended, but the Publish that was inside Transport.Write has not returned 20 s later")
+		}
 	}
 	err := r.cli.Err()
 	if err == nil {
@@ -792,11 +813,12 @@ func TestVerifC06_Connected(t *testing.T) {
 			return c06ConnCase{Bad: c06GenBad(rt), Glued: true}
 		}
 		return c06ConnCase{
-			Prefix:    c04GenSteps(rt, 8),
-			Bad:       c06GenBad(rt),
-			Junk:      rapid.SliceOfN(rapid.Byte(), 0, 16).Draw(rt, "junk"),
-			MaxRead:   rapid.SampledFrom([]int{0, 0, 1, 3}).Draw(rt, "maxRead"),
-			NoHandler: rapid.IntRange(0, 2).Draw(rt, "noHandler") == 0,
+			Prefix:       c04GenSteps(rt, 8),
+			Bad:          c06GenBad(rt),
+			Junk:         rapid.SliceOfN(rapid.Byte(), 0, 16).Draw(rt, "junk"),
+			MaxRead:      rapid.SampledFrom([]int{0, 0, 1, 3}).Draw(rt, "maxRead"),
+			NoHandler:    rapid.IntRange(0, 2).Draw(rt, "noHandler") == 0,
+			BlockedWrite: rapid.IntRange(0, 4).Draw(rt, "blockedWrite") == 0,
 		}
 	}, c06ConnRun)
 }
